@@ -215,6 +215,7 @@ package meta
 //@ func (*storeFSM).applyRemovePeerCommand
 //@   props C06 C07
 //@   requires cmd != nil && fsm.data != nil
+//@   holds fsm.mu
 //@   requires fsm.raftState != nil
 //@   at after proto.GetExtension#1: assume typeis(callresult0, "*metapb.RemovePeerCommand") && ival(callresult0) != 0
 //@   ensures rejected_changes_nothing: result != nil ==> fsm.data == old(fsm.data)
@@ -222,6 +223,7 @@ package meta
 //@ func (*storeFSM).applyCreateNodeCommand
 //@   props C06 C07
 //@   requires cmd != nil && fsm.data != nil
+//@   holds fsm.mu
 //@   at after proto.GetExtension#1: assume typeis(callresult0, "*metapb.CreateNodeCommand") && ival(callresult0) != 0
 //@   ensures rejected_changes_nothing: result != nil ==> fsm.data == old(fsm.data)
 //@   call Data.CreateMetaNode#1 requires runs_on_private_copy: fresh(other)
@@ -231,22 +233,26 @@ package meta
 //@ func (*storeFSM).applyUpdateNodeCommand
 //@   props C06 C07
 //@   requires cmd != nil && fsm.data != nil
+//@   holds fsm.mu
 //@   ensures rejected_changes_nothing: result != nil ==> fsm.data == old(fsm.data)
 
 //@ func (*storeFSM).applyUpdateDataNodeCommand
 //@   props C06 C07
 //@   requires cmd != nil && fsm.data != nil
+//@   holds fsm.mu
 //@   at after proto.GetExtension#1: assume typeis(callresult0, "*metapb.UpdateDataNodeCommand") && ival(callresult0) != 0
 //@   ensures rejected_changes_nothing: result != nil ==> fsm.data == old(fsm.data)
 
 //@ func (*storeFSM).applyDeleteNodeCommand
 //@   props C06 C07
 //@   requires cmd != nil && fsm.data != nil
+//@   holds fsm.mu
 //@   ensures rejected_changes_nothing: result != nil ==> fsm.data == old(fsm.data)
 
 //@ func (*storeFSM).applyCreateDatabaseCommand
 //@   props C06 C07
 //@   requires cmd != nil && fsm.data != nil
+//@   holds fsm.mu
 //@   requires fsm.config != nil
 //@   at after proto.GetExtension#1: assume typeis(callresult0, "*metapb.CreateDatabaseCommand") && ival(callresult0) != 0
 //@   ensures rejected_changes_nothing: result != nil ==> fsm.data == old(fsm.data)
@@ -257,6 +263,7 @@ package meta
 //@ func (*storeFSM).applyDropDatabaseCommand
 //@   props C06 C07
 //@   requires cmd != nil && fsm.data != nil
+//@   holds fsm.mu
 //@   at after proto.GetExtension#1: assume typeis(callresult0, "*metapb.DropDatabaseCommand") && ival(callresult0) != 0
 //@   ensures rejected_changes_nothing: result != nil ==> fsm.data == old(fsm.data)
 //@   call Data.DropDatabase#1 requires runs_on_private_copy: fresh(other)
@@ -264,6 +271,7 @@ package meta
 //@ func (*storeFSM).applyCreateRetentionPolicyCommand
 //@   props C06 C07
 //@   requires cmd != nil && fsm.data != nil
+//@   holds fsm.mu
 //@   at after proto.GetExtension#1: assume typeis(callresult0, "*metapb.CreateRetentionPolicyCommand") && ival(callresult0) != 0
 //@   ensures rejected_changes_nothing: result != nil ==> fsm.data == old(fsm.data)
 //@   call Data.CreateRetentionPolicy#1 requires runs_on_private_copy: fresh(other)
@@ -271,6 +279,7 @@ package meta
 //@ func (*storeFSM).applyDropRetentionPolicyCommand
 //@   props C06 C07
 //@   requires cmd != nil && fsm.data != nil
+//@   holds fsm.mu
 //@   at after proto.GetExtension#1: assume typeis(callresult0, "*metapb.DropRetentionPolicyCommand") && ival(callresult0) != 0
 //@   ensures rejected_changes_nothing: result != nil ==> fsm.data == old(fsm.data)
 //@   call Data.DropRetentionPolicy#1 requires runs_on_private_copy: fresh(other)
@@ -278,6 +287,7 @@ package meta
 //@ func (*storeFSM).applyUpdateRetentionPolicyCommand
 //@   props C06 C07
 //@   requires cmd != nil && fsm.data != nil
+//@   holds fsm.mu
 //@   at after proto.GetExtension#1: assume typeis(callresult0, "*metapb.UpdateRetentionPolicyCommand") && ival(callresult0) != 0
 //@   ensures rejected_changes_nothing: result != nil ==> fsm.data == old(fsm.data)
 //@   call Data.UpdateRetentionPolicy#1 requires runs_on_private_copy: fresh(other)
@@ -285,6 +295,7 @@ package meta
 //@ func (*storeFSM).applyCreateShardGroupCommand
 //@   props C06 C07
 //@   requires cmd != nil && fsm.data != nil
+//@   holds fsm.mu
 //@   at after proto.GetExtension#1: assume typeis(callresult0, "*metapb.CreateShardGroupCommand") && ival(callresult0) != 0
 //@   ensures rejected_changes_nothing: result != nil ==> fsm.data == old(fsm.data)
 //@   call Data.CreateShardGroup#1 assume_callee_requires
@@ -293,6 +304,7 @@ package meta
 //@ func (*storeFSM).applyDeleteShardGroupCommand
 //@   props C06 C07
 //@   requires cmd != nil && fsm.data != nil
+//@   holds fsm.mu
 //@   at after proto.GetExtension#1: assume typeis(callresult0, "*metapb.DeleteShardGroupCommand") && ival(callresult0) != 0
 //@   ensures rejected_changes_nothing: result != nil ==> fsm.data == old(fsm.data)
 //@   call Data.DeleteShardGroup#1 requires runs_on_private_copy: fresh(other)
@@ -300,6 +312,7 @@ package meta
 //@ func (*storeFSM).applyDropShardCommand
 //@   props C06 C07
 //@   requires cmd != nil && fsm.data != nil
+//@   holds fsm.mu
 //@   at after proto.GetExtension#1: assume typeis(callresult0, "*metapb.DropShardCommand") && ival(callresult0) != 0
 //@   ensures rejected_changes_nothing: result != nil ==> fsm.data == old(fsm.data)
 //@   call Data.DropShard#1 requires runs_on_private_copy: fresh(other)
@@ -307,6 +320,7 @@ package meta
 //@ func (*storeFSM).applyTruncateShardGroupsCommand
 //@   props C06 C07
 //@   requires cmd != nil && fsm.data != nil
+//@   holds fsm.mu
 //@   at after proto.GetExtension#1: assume typeis(callresult0, "*metapb.TruncateShardGroupsCommand") && ival(callresult0) != 0
 //@   ensures rejected_changes_nothing: result != nil ==> fsm.data == old(fsm.data)
 //@   call Data.TruncateShardGroups#1 requires runs_on_private_copy: fresh(other)
@@ -314,6 +328,7 @@ package meta
 //@ func (*storeFSM).applyPruneShardGroupsCommand
 //@   props C06 C07
 //@   requires cmd != nil && fsm.data != nil
+//@   holds fsm.mu
 //@   at after proto.GetExtension#1: assume typeis(callresult0, "*metapb.PruneShardGroupsCommand") && ival(callresult0) != 0
 //@   ensures rejected_changes_nothing: result != nil ==> fsm.data == old(fsm.data)
 //@   call Data.PruneShardGroups#1 requires runs_on_private_copy: fresh(other)
@@ -321,6 +336,7 @@ package meta
 //@ func (*storeFSM).applyCopyShardOwnerCommand
 //@   props C06 C07
 //@   requires cmd != nil && fsm.data != nil
+//@   holds fsm.mu
 //@   at after proto.GetExtension#1: assume typeis(callresult0, "*metapb.CopyShardOwnerCommand") && ival(callresult0) != 0
 //@   ensures rejected_changes_nothing: result != nil ==> fsm.data == old(fsm.data)
 //@   call Data.CopyShardOwner#1 requires runs_on_private_copy: fresh(other)
@@ -328,6 +344,7 @@ package meta
 //@ func (*storeFSM).applyRemoveShardOwnerCommand
 //@   props C06 C07
 //@   requires cmd != nil && fsm.data != nil
+//@   holds fsm.mu
 //@   at after proto.GetExtension#1: assume typeis(callresult0, "*metapb.RemoveShardOwnerCommand") && ival(callresult0) != 0
 //@   ensures rejected_changes_nothing: result != nil ==> fsm.data == old(fsm.data)
 //@   call Data.RemoveShardOwner#1 requires runs_on_private_copy: fresh(other)
@@ -335,6 +352,7 @@ package meta
 //@ func (*storeFSM).applyCreateContinuousQueryCommand
 //@   props C06 C07
 //@   requires cmd != nil && fsm.data != nil
+//@   holds fsm.mu
 //@   at after proto.GetExtension#1: assume typeis(callresult0, "*metapb.CreateContinuousQueryCommand") && ival(callresult0) != 0
 //@   ensures rejected_changes_nothing: result != nil ==> fsm.data == old(fsm.data)
 //@   call Data.CreateContinuousQuery#1 requires runs_on_private_copy: fresh(other)
@@ -342,6 +360,7 @@ package meta
 //@ func (*storeFSM).applyDropContinuousQueryCommand
 //@   props C06 C07
 //@   requires cmd != nil && fsm.data != nil
+//@   holds fsm.mu
 //@   at after proto.GetExtension#1: assume typeis(callresult0, "*metapb.DropContinuousQueryCommand") && ival(callresult0) != 0
 //@   ensures rejected_changes_nothing: result != nil ==> fsm.data == old(fsm.data)
 //@   call Data.DropContinuousQuery#1 requires runs_on_private_copy: fresh(other)
@@ -349,6 +368,7 @@ package meta
 //@ func (*storeFSM).applyCreateSubscriptionCommand
 //@   props C06 C07
 //@   requires cmd != nil && fsm.data != nil
+//@   holds fsm.mu
 //@   at after proto.GetExtension#1: assume typeis(callresult0, "*metapb.CreateSubscriptionCommand") && ival(callresult0) != 0
 //@   ensures rejected_changes_nothing: result != nil ==> fsm.data == old(fsm.data)
 //@   call Data.CreateSubscription#1 requires runs_on_private_copy: fresh(other)
@@ -356,6 +376,7 @@ package meta
 //@ func (*storeFSM).applyDropSubscriptionCommand
 //@   props C06 C07
 //@   requires cmd != nil && fsm.data != nil
+//@   holds fsm.mu
 //@   at after proto.GetExtension#1: assume typeis(callresult0, "*metapb.DropSubscriptionCommand") && ival(callresult0) != 0
 //@   ensures rejected_changes_nothing: result != nil ==> fsm.data == old(fsm.data)
 //@   call Data.DropSubscription#1 requires runs_on_private_copy: fresh(other)
@@ -363,6 +384,7 @@ package meta
 //@ func (*storeFSM).applyCreateUserCommand
 //@   props C06 C07
 //@   requires cmd != nil && fsm.data != nil
+//@   holds fsm.mu
 //@   at after proto.GetExtension#1: assume typeis(callresult0, "*metapb.CreateUserCommand") && ival(callresult0) != 0
 //@   ensures rejected_changes_nothing: result != nil ==> fsm.data == old(fsm.data)
 //@   call Data.CreateUser#1 requires runs_on_private_copy: fresh(other)
@@ -370,6 +392,7 @@ package meta
 //@ func (*storeFSM).applyDropUserCommand
 //@   props C06 C07
 //@   requires cmd != nil && fsm.data != nil
+//@   holds fsm.mu
 //@   at after proto.GetExtension#1: assume typeis(callresult0, "*metapb.DropUserCommand") && ival(callresult0) != 0
 //@   ensures rejected_changes_nothing: result != nil ==> fsm.data == old(fsm.data)
 //@   call Data.DropUser#1 requires runs_on_private_copy: fresh(other)
@@ -377,6 +400,7 @@ package meta
 //@ func (*storeFSM).applyUpdateUserCommand
 //@   props C06 C07
 //@   requires cmd != nil && fsm.data != nil
+//@   holds fsm.mu
 //@   at after proto.GetExtension#1: assume typeis(callresult0, "*metapb.UpdateUserCommand") && ival(callresult0) != 0
 //@   ensures rejected_changes_nothing: result != nil ==> fsm.data == old(fsm.data)
 //@   call Data.UpdateUser#1 requires runs_on_private_copy: fresh(other)
@@ -384,6 +408,7 @@ package meta
 //@ func (*storeFSM).applySetPrivilegeCommand
 //@   props C06 C07
 //@   requires cmd != nil && fsm.data != nil
+//@   holds fsm.mu
 //@   at after proto.GetExtension#1: assume typeis(callresult0, "*metapb.SetPrivilegeCommand") && ival(callresult0) != 0
 //@   ensures rejected_changes_nothing: result != nil ==> fsm.data == old(fsm.data)
 //@   call Data.SetPrivilege#1 requires runs_on_private_copy: fresh(other)
@@ -391,6 +416,7 @@ package meta
 //@ func (*storeFSM).applySetAdminPrivilegeCommand
 //@   props C06 C07
 //@   requires cmd != nil && fsm.data != nil
+//@   holds fsm.mu
 //@   at after proto.GetExtension#1: assume typeis(callresult0, "*metapb.SetAdminPrivilegeCommand") && ival(callresult0) != 0
 //@   ensures rejected_changes_nothing: result != nil ==> fsm.data == old(fsm.data)
 //@   call Data.SetAdminPrivilege#1 requires runs_on_private_copy: fresh(other)
@@ -398,6 +424,7 @@ package meta
 //@ func (*storeFSM).applySetDataCommand
 //@   props C06 C07
 //@   requires cmd != nil && fsm.data != nil
+//@   holds fsm.mu
 //@   at after proto.GetExtension#1: assume typeis(callresult0, "*metapb.SetDataCommand") && ival(callresult0) != 0
 //@   ensures rejected_changes_nothing: result != nil ==> fsm.data == old(fsm.data)
 //@   call Data.unmarshal#1 requires runs_on_private_copy: fresh(fsm.data)
@@ -405,6 +432,7 @@ package meta
 //@ func (*storeFSM).applyCreateMetaNodeCommand
 //@   props C06 C07
 //@   requires cmd != nil && fsm.data != nil
+//@   holds fsm.mu
 //@   at after proto.GetExtension#1: assume typeis(callresult0, "*metapb.CreateMetaNodeCommand") && ival(callresult0) != 0
 //@   ensures rejected_changes_nothing: result != nil ==> fsm.data == old(fsm.data)
 //@   call Data.CreateMetaNode#1 requires runs_on_private_copy: fresh(other)
@@ -412,6 +440,7 @@ package meta
 //@ func (*storeFSM).applySetMetaNodeCommand
 //@   props C06 C07
 //@   requires cmd != nil && fsm.data != nil
+//@   holds fsm.mu
 //@   at after proto.GetExtension#1: assume typeis(callresult0, "*metapb.SetMetaNodeCommand") && ival(callresult0) != 0
 //@   ensures rejected_changes_nothing: result != nil ==> fsm.data == old(fsm.data)
 //@   call Data.SetMetaNode#1 requires runs_on_private_copy: fresh(other)
@@ -419,6 +448,7 @@ package meta
 //@ func (*storeFSM).applyDeleteMetaNodeCommand
 //@   props C06 C07
 //@   requires cmd != nil && fsm.data != nil
+//@   holds fsm.mu
 //@   at after proto.GetExtension#1: assume typeis(callresult0, "*metapb.DeleteMetaNodeCommand") && ival(callresult0) != 0
 //@   ensures rejected_changes_nothing: result != nil ==> fsm.data == old(fsm.data)
 //@   call Data.DeleteMetaNode#1 requires runs_on_private_copy: fresh(other)
@@ -426,6 +456,7 @@ package meta
 //@ func (*storeFSM).applyCreateDataNodeCommand
 //@   props C06 C07
 //@   requires cmd != nil && fsm.data != nil
+//@   holds fsm.mu
 //@   at after proto.GetExtension#1: assume typeis(callresult0, "*metapb.CreateDataNodeCommand") && ival(callresult0) != 0
 //@   ensures rejected_changes_nothing: result != nil ==> fsm.data == old(fsm.data)
 //@   call Data.CreateDataNode#1 requires runs_on_private_copy: fresh(other)
@@ -433,6 +464,7 @@ package meta
 //@ func (*storeFSM).applyDeleteDataNodeCommand
 //@   props C06 C07
 //@   requires cmd != nil && fsm.data != nil
+//@   holds fsm.mu
 //@   at after proto.GetExtension#1: assume typeis(callresult0, "*metapb.DeleteDataNodeCommand") && ival(callresult0) != 0
 //@   ensures rejected_changes_nothing: result != nil ==> fsm.data == old(fsm.data)
 //@   call Data.DeleteDataNode#1 requires runs_on_private_copy: fresh(other)
@@ -547,3 +579,30 @@ package meta
 //@   modifies *except storeFSM.all store.all
 
 // ---- GENERATED-FSM END ----
+
+// ---- C19: lock discipline of the meta store and client (swept over every function of the package) ----
+//@ guarded store.data by mu
+//@ guarded store.opened by mu
+//@ guarded store.dataChanged by mu
+//@ guarded Client.cacheData by mu
+//@ guarded Client.changed by mu
+//@ guarded Client.authCache by mu
+//@ guarded Client.metaServers by mu
+
+// Apply takes the store's lock and dispatches, inside a closure, to the apply* functions (generated above: holds fsm.mu)
+//@ func (*storeFSM).Apply$1
+//@   holds fsm.mu
+
+// the client's cache maintenance runs inside pollForUpdates' critical section
+//@ func (*Client).updateAuthCache
+//@   holds c.mu
+//@ func (*Client).updateNodeID
+//@   holds c.mu
+//@ func (*Client).updateMetaServers
+//@   holds c.mu
+//@ func (*Client).Save
+//@   holds_r c.mu
+//@ func (*Client).Open
+//@   setup_only runs before the polling goroutine is started and before the client is handed to its users
+//@ func (*Client).Load
+//@   setup_only called from Open only
